@@ -9,6 +9,8 @@ package gmtls
 import (
 	"bytes"
 	"crypto"
+	"crypto/ecdh"
+	"crypto/elliptic"
 	"crypto/rand"
 	"crypto/rsa"
 	stdtls "crypto/tls"
@@ -379,7 +381,82 @@ func TestGvcBoundedAgree(t *testing.T) {
 			}
 		}
 	}
+	// ---- the ECDHE pre-master secret on the NIST curves against crypto/ecdh -----------------------------------------------
+	// (RFC 4492 5.10: the x-coordinate, left-padded to the field size; about one secret in 256 starts with a zero byte,
+	// which a handshake grid of this size would not meet)
+	trials := 1500
+	if thorough {
+		trials = 6000
+	}
+	type nist struct {
+		id    CurveID
+		curve elliptic.Curve
+		ecdh  ecdh.Curve
+	}
+	for _, nc := range []nist{{CurveP256, elliptic.P256(), ecdh.P256()}, {CurveP384, elliptic.P384(), ecdh.P384()}, {CurveP521, elliptic.P521(), ecdh.P521()}} {
+		id := fmt.Sprintf("ecdhe:%d", nc.id)
+		cases++
+		zeros := 0
+		func() {
+			defer func() {
+				if r := recover(); r != nil {
+					fail(id + ":panic")
+				}
+			}()
+			n := trials
+			if nc.id != CurveP256 {
+				n = trials / 5
+			}
+			for i := 0; i < n; i++ {
+				ours, err1 := nc.ecdh.GenerateKey(rand.Reader)
+				theirs, err2 := nc.ecdh.GenerateKey(rand.Reader)
+				if err1 != nil || err2 != nil {
+					return
+				}
+				want, err := ours.ECDH(theirs.PublicKey())
+				if err != nil {
+					return
+				}
+				if want[0] == 0 {
+					zeros++
+				}
+				// server side: our private scalar, the peer's point in the ClientKeyExchange
+				ka := &ecdheKeyAgreement{version: VersionTLS12, isRSA: true, curveid: nc.id, privateKey: ours.Bytes()}
+				pt := theirs.PublicKey().Bytes()
+				ckx := &clientKeyExchangeMsg{ciphertext: append([]byte{byte(len(pt))}, pt...)}
+				got, err := ka.processClientKeyExchange(&Config{}, nil, ckx, VersionTLS12)
+				if err != nil || !bytes.Equal(got, want) {
+					fail(fmt.Sprintf("%s:server-premaster(len %d, want %d)", id, len(got), len(want)))
+					return
+				}
+				// client side: the peer's point from the ServerKeyExchange, our scalar drawn from Config.Rand
+				x, y := elliptic.Unmarshal(nc.curve, pt)
+				kc := &ecdheKeyAgreement{version: VersionTLS12, isRSA: true, curveid: nc.id, x: x, y: y}
+				pm, ckx2, err := kc.generateClientKeyExchange(&Config{}, &clientHelloMsg{}, nil)
+				if err != nil || len(ckx2.ciphertext) < 2 {
+					fail(id + ":client-keyexchange")
+					return
+				}
+				cpub, err := nc.ecdh.NewPublicKey(ckx2.ciphertext[1:])
+				if err != nil {
+					fail(id + ":client-point")
+					return
+				}
+				want2, err := theirs.ECDH(cpub)
+				if err != nil || !bytes.Equal(pm, want2) {
+					fail(fmt.Sprintf("%s:client-premaster(len %d, want %d)", id, len(pm), len(want2)))
+					return
+				}
+				if want2[0] == 0 {
+					zeros++
+				}
+			}
+		}()
+		if nc.id == CurveP256 && zeros == 0 {
+			fail(id + ":no-leading-zero-sample") // the sample missed the case it exists for: enlarge it
+		}
+	}
 	out, _ := json.Marshal(map[string]interface{}{"cases": cases, "failures": len(failing), "failing": failing,
-		"bound": fmt.Sprintf("the library against itself: 3 server modes (GMSSL only, GMSSL/TLS auto-switch, plain TLS) x 11 client kinds (GMSSL with CBC, GCM, default and the unimplemented ECDHE suite; TLS 1.0, 1.1, 1.2 with RSA and ECDHE, CBC, GCM and ChaCha20 suites; default) x client authentication off / required: allowed combinations complete with equal version, suite, peer certificates and exported keying material and carry %d byte streams (1 B .. %d B, written in uneven pieces) intact in both directions, forbidden ones fail on both sides; against the Go standard library crypto/tls in both roles: 7 version/suite pairs of TLS 1.0-1.2 x client authentication off / required. No independent GM/T 0024 implementation is available in the sandbox: that clause is not sampled (seed %d)", len(streams), sizes[len(sizes)-1], seed)})
+		"bound": fmt.Sprintf("the library against itself: 3 server modes (GMSSL only, GMSSL/TLS auto-switch, plain TLS) x 11 client kinds (GMSSL with CBC, GCM, default and the unimplemented ECDHE suite; TLS 1.0, 1.1, 1.2 with RSA and ECDHE, CBC, GCM and ChaCha20 suites; default) x client authentication off / required: allowed combinations complete with equal version, suite, peer certificates and exported keying material and carry %d byte streams (1 B .. %d B, written in uneven pieces) intact in both directions, forbidden ones fail on both sides; against the Go standard library crypto/tls in both roles: 7 version/suite pairs of TLS 1.0-1.2 x client authentication off / required. the ECDHE pre-master secret of both roles on P-256 / P-384 / P-521 against crypto/ecdh for %d random key pairs (P-256; a fifth of that on the others), which includes secrets with a leading zero byte. No independent GM/T 0024 implementation is available in the sandbox: that clause is not sampled (seed %d)", len(streams), sizes[len(sizes)-1], trials, seed)})
 	fmt.Println("GVCBOUNDED " + string(out))
 }
